@@ -337,6 +337,8 @@ def run(ctx):
     P3(ctx)
     P4(ctx)
     P4b(ctx)
+    from . import round6
+    round6.P4c(ctx)
     P5(ctx)
     # the thread limit fails inside the model (Set::new_thread), before the scheduler outside the model would notice it
     from . import pathrules
